@@ -126,7 +126,7 @@ def step (c : Cfg) (s : State) (i : In) : State × Out :=
   let we := isWrite || preCond
   let isCmd := preCond || actCond || s.fsm == .refresh
   let rowOpen := actCond
-  let refreshGnt := s.fsm == .refresh && twtpR
+  let refreshGnt := s.fsm == .refresh && twtpR && trasR
   let a := (if actCond then rowFull c s.buf.addr else ((if autoPre then 1024 else 0) ||| colOf c s.buf.addr)) % 2 ^ c.abits
   let next : St :=
     match s.fsm with
